@@ -564,6 +564,7 @@ func runC19(c *Ctx) {
 	checkExtendedReadonly(c, "C19")
 	// R7: what is served is what is advertised
 	checkDecodedOnlyIfConfigured(c, "R7")
+	checkFailedConstructionReleasesSession(c, "R8")
 }
 
 // checkDecodedOnlyIfConfigured (C19.R7): "advertised ⊆ served" is R5; this is the converse.  The extended-request
@@ -680,4 +681,122 @@ func checkDecodedOnlyIfConfigured(c *Ctx, rule string) {
 			"the request is given a specific packet (and is then served) for any built-in name, whether or not SetSFTPExtensions left it in the advertised list: a client is told the extension is absent and the server performs it anyway")
 	})
 	c.check(n >= 3, rule, "extended request kinds", p.Pos(ub.Pos()), fmt.Sprintf("%d specific packets", n), fmt.Sprintf("only %d specific packets assigned in the extended decoder", n))
+}
+
+// checkFailedConstructionReleasesSession (R8): NewClient opens the ssh session itself and hands back (nil, err) when
+// construction fails, so nobody else can close that session: "fails cleanly" needs every return of NewClient on
+// which the error may be non-nil — after NewSession succeeded — to lie behind a call of (*ssh.Session).Close on every
+// path (or behind a deferred closure that makes that call).  newClientPipe closes only the writer, which for a
+// session's stdin is a half-close: the channel and the stderr copier stay until the whole connection goes.
+func checkFailedConstructionReleasesSession(c *Ctx, rule string) {
+	p := c.P
+	fn := p.Func("NewClient")
+	if fn == nil {
+		c.missing(rule, "NewClient")
+		return
+	}
+	c.looked("NewClient")
+	var open *ssa.Call
+	eachInstr(fn, func(in ssa.Instruction) {
+		if call, ok := in.(*ssa.Call); ok && calleeName(&call.Call) == "NewSession" {
+			open = call
+		}
+	})
+	if open == nil {
+		c.und(rule, "NewClient opens a session", p.Pos(fn.Pos()), "no call of NewSession found in NewClient")
+		return
+	}
+	var sess, operr ssa.Value
+	for _, r := range *open.Referrers() {
+		if ex, ok := r.(*ssa.Extract); ok {
+			if ex.Index == 0 {
+				sess = ex
+			} else {
+				operr = ex
+			}
+		}
+	}
+	isClose := func(in ssa.Instruction) bool {
+		cc := callOf(in)
+		if cc == nil || calleeName(cc) != "Close" {
+			return false
+		}
+		if _, isDefer := in.(*ssa.Defer); isDefer {
+			return false
+		}
+		r := recvOf(cc)
+		return r != nil && sess != nil && stripConv(r) == sess
+	}
+	// a deferred closure that closes the session covers the returns it dominates
+	var deferred []ssa.Instruction
+	eachInstr(fn, func(in ssa.Instruction) {
+		d, ok := in.(*ssa.Defer)
+		if !ok {
+			return
+		}
+		if mc, ok := d.Call.Value.(*ssa.MakeClosure); ok {
+			cl := mc.Fn.(*ssa.Function)
+			found := false
+			eachInstr(cl, func(y ssa.Instruction) {
+				if cc := callOf(y); cc != nil && calleeName(cc) == "Close" {
+					if fv, ok := stripConv(recvOf(cc)).(*ssa.FreeVar); ok && resolveFreeVar(fv) == sess {
+						found = true
+					}
+				}
+			})
+			if found {
+				deferred = append(deferred, in)
+			}
+		}
+	})
+	n := 0
+	for _, r := range findInstrs(fn, isReturn) {
+		ret := r.(*ssa.Return)
+		if len(ret.Results) != 2 {
+			continue
+		}
+		n++
+		key := fmt.Sprintf("NewClient return #%d", n)
+		// may the error be non-nil here?
+		mayFail := false
+		openFailed := false
+		var walk func(v ssa.Value, b, pred *ssa.BasicBlock, d int)
+		walk = func(v ssa.Value, b, pred *ssa.BasicBlock, d int) {
+			if ph, ok := v.(*ssa.Phi); ok && d < 6 {
+				for k, e := range ph.Edges {
+					walk(e, ph.Block(), ph.Block().Preds[k], d+1)
+				}
+				return
+			}
+			if isNilConst(v) {
+				return
+			}
+			if v == operr {
+				openFailed = true
+				return
+			}
+			mayFail = true
+		}
+		walk(ret.Results[1], ret.Block(), nil, 0)
+		if !mayFail {
+			why := "the error is nil here"
+			if openFailed {
+				why = "NewSession itself failed: there is no session"
+			}
+			c.okT(rule, key, p.Pos(r.Pos()), why)
+			continue
+		}
+		covered := false
+		for _, d := range deferred {
+			if dominates(d, r) {
+				covered = true
+			}
+		}
+		if !covered {
+			covered = !reachAvoiding(fn, open, func(in ssa.Instruction) bool { return in == r }, isClose)
+		}
+		c.check(covered, rule, key, p.Pos(r.Pos()), "the session is closed on every path to this failing return",
+			"NewClient can return an error here without closing the ssh session it opened: the caller gets (nil, err) and no handle, the channel and the stderr copier stay until the whole connection is closed")
+	}
+	c.check(n >= 5, rule, "returns of NewClient", p.Pos(fn.Pos()), fmt.Sprintf("%d returns", n), fmt.Sprintf("only %d returns found", n))
 }
